@@ -1229,6 +1229,8 @@ def is_blocking(node: ast.AST, parent_type: ast.AST = None) -> bool:
                     return False
                 if test:
                     return False
+                if any(_breaks_or_continues(grandchild) for grandchild in child.orelse):
+                    return False  # It is the else or elif that is taken, with its break or continue
             elif _breaks_or_continues(child):
                 # A break or continue of this loop somewhere inside, for example in an if in a with
                 return False
